@@ -1459,6 +1459,9 @@ class _HttpProxy:
         externalize = self._externalize_request_body
         protocol_version = self._protocol_version
 
+        def get_capabilities() -> HttpServerCapabilities | None:
+            return self._capabilities
+
         def caller(**kwargs: object) -> HttpStreamSession:
             if wire_http_logger.isEnabledFor(logging.DEBUG):
                 wire_http_logger.debug("HTTP stream init: %s/%s/init", url_prefix, info.name)
@@ -1512,7 +1515,7 @@ class _HttpProxy:
                 header = _read_stream_header(resp_stream, info.header_type, ipc_validation, on_log, ext_cfg)
 
             reader = _open_response_stream(resp_stream.read(), resp.status_code, ipc_validation)
-            return _init_http_stream_session(
+            session = _init_http_stream_session(
                 client=client,
                 url_prefix=url_prefix,
                 method_name=info.name,
@@ -1524,6 +1527,12 @@ class _HttpProxy:
                 retry_config=retry_cfg,
                 compression_level=compression_level,
             )
+            # Hand over what this proxy has learnt about the server (notably the
+            # codec set refreshed by a 415 on /init).  A session that starts from
+            # nothing assumes zstd, so against a gzip-only server every exchange
+            # and continuation it sends is refused with 415.
+            session._capabilities = get_capabilities()
+            return session
 
         return caller
 
